@@ -967,3 +967,7 @@ M("r4n-revert-F48-mark-negated", ["C12", "C04"], "break",
   [("yaep.c", "      node->val.anode.cost = -(node->val.anode.cost + 1);", "      node->val.anode.cost = -node->val.anode.cost - 1;")], "cost-negated")
 M("r4n-mark-decoded-by-complement-benign", ["C12", "C04"], "benign",
   [("yaep.c", "      node->val.anode.cost = -(node->val.anode.cost + 1);", "      node->val.anode.cost = ~node->val.anode.cost;")])
+M("c11-revert-F49-number-is-nil", ["C11"], "break",
+  [("sgramm.y", "\t    if (symb_num == YAEP_NIL_TRANSLATION_NUMBER)\n\t      symb_num--;\n\t    OS_TOP_ADD_MEMORY", "\t    OS_TOP_ADD_MEMORY")], "C11-nil-number")
+M("c11-nil-number-clamp-benign", ["C11"], "benign",
+  [("sgramm.y", "\t    if (symb_num == YAEP_NIL_TRANSLATION_NUMBER)\n\t      symb_num--;\n\t    OS_TOP_ADD_MEMORY", "\t    if (symb_num >= YAEP_NIL_TRANSLATION_NUMBER)\n\t      symb_num = YAEP_NIL_TRANSLATION_NUMBER - 1;\n\t    OS_TOP_ADD_MEMORY")])
